@@ -167,7 +167,7 @@ def engine_check(ctx: Ctx, profile, n_quick, n_thorough, nontrivial, monitor=Non
                 nontriv.add(scn_hash("\n".join(eng.model_lines(s)[1:])))
                 if len(samples) < 3:
                     samples.append(dict(scenario=eng.model_lines(s)[:40], observation=a[:25]))
-            fails = []
+            fails = [f"harness-level assertion: {l[2:]}" for l in a if l.startswith("X ")]
             if monitor:
                 fails += monitor(s, a, rt)
             if post:
